@@ -22,7 +22,7 @@ RULE = ('tables: S(12)/S(16) ∪ F, two labelings; every ordered pair of concept
         'lattices with <= 8 concepts, empty/full/doubled collections; non-trivial = lattice has '
         '> 2 concepts and is not a chain; distinct = distinct table')
 ASSUMPTIONS = ['R1 bounds are found by search among all concepts (independent of closing a union)']
-HITS = ('hit_union_not_closed','hit_empty_collection')
+HITS = ('hit_union_not_closed', 'hit_empty_collection', 'hit_orphan_concepts')
 BUDGET = {'quick': 240, 'thorough': 3000}
 
 
@@ -112,6 +112,23 @@ def check_case(case, ctr):
             break
     if lat.join([]) is not lat.infimum or lat.meet([]) is not lat.supremum:
         bad('empty-join-meet', None, None)
+    # concepts kept after every other reference to their context and lattice is dropped
+    if case.n * case.m <= 6 and case.variant == 'fresh' and case.labeling == 'asc' and not V:
+        import gc
+        kept = list(case.fresh_ctx().lattice)
+        gc.collect()
+        ctr['hit_orphan_concepts'] += 1
+        for i in R:
+            for j in R:
+                ctr['calls'] += 2
+                try:
+                    a, b = kept[i] | kept[j], kept[i] & kept[j]
+                    ok = a is kept[J[i][j]] and b is kept[M[i][j]]
+                except Exception as e:
+                    ok, a = False, f'{type(e).__name__}: {e}'
+                if not ok:
+                    bad('join-meet-of-kept-concepts', [J[i][j], M[i][j]], repr(a), pair=[i, j])
+                    return V
     return V
 
 
